@@ -175,6 +175,8 @@ class RoleFinder:
                 return 'FIXED'
             if t.endswith('database.data'):
                 return 'DATA'
+            if t.endswith('.fullData'):
+                return 'DATA_AS_GIVEN_TO_THE_CONSTRUCTOR'  # not kept in step with .data (panel sorting rebinds .data)
             if t.endswith('.individualMap'):
                 return 'MAP'
             if t.endswith('.theDraws'):
@@ -250,11 +252,13 @@ def ecc(ctx: Ctx, rule: str, only_class: str | None = None, methods: set[str] | 
                 for p, a in bound:
                     role = rf.role(a, g)
                     want = ROLE_OF_PARAM.get(p, set())
-                    ok = role in want
+                    parts = role[6:-1].split('|') if role.startswith('MIXED(') else [role]
+                    ok = all(r_ in want for r_ in parts)
+                    known = not any(r_.startswith('?') for r_ in parts)  # an expression whose role the rule cannot tell is not an accusation
                     n += 1
-                    ctx.add(rule, f'{construct}({p})', ok, (g.file, c.lineno),
-                            f'{m}({p}=...) receives {unparse(a)[:60]} [{role}]' + ('' if ok else f'; the engine reads this slot as {sorted(want)}'),
-                            detail=f'{p}<-{role}')
+                    ctx.add(rule, f'{construct}({p})', ok if (ok or known) else None, (g.file, c.lineno),
+                            f'{m}({p}=...) receives {unparse(a)[:60]} [{role}]' + ('' if ok else (f'; the engine reads this slot as {sorted(want)}' if known else ': the role of this expression is not recognised')),
+                            detail=f'{p}<-{role}', positive=known and not ok)
     return n
 
 
@@ -373,7 +377,7 @@ def ord_pack(ctx: Ctx, rule: str) -> None:
                         if positional:
                             ctx.add(rule, f'{f.qualname}:appearance-order', False, (f.file, n.lineno),
                                     f'a positional sequence is built by iterating {it}: the order of a dictionary of parameters is their order of appearance in the formula, '
-                                    f'not the canonical (sorted) order of {m.group("kind")}_betas.names', detail=it)
+                                    f'not the canonical (sorted) order of {m.group("kind")}_betas.names', detail=it, positive=True)
             # O2: table lookups by loop variable
             if isinstance(n, ast.Subscript):
                 t = unparse(n.value)
@@ -393,7 +397,7 @@ def ord_pack(ctx: Ctx, rule: str) -> None:
                     ok = nk is not None and nk[1] == m.group('kind') and nk[0] == m.group('recv')
                     ctx.add(rule, f'{f.qualname}:{m.group("kind")}_betas.expressions[{v}]', ok, (f.file, n.lineno),
                             f'{t}[{v}] with {v} ranging over {unparse(src[1])}' + ('' if ok else f'; a per-parameter vector must follow {m.group("recv")}.{m.group("kind")}_betas.names'),
-                            detail=f'{t}[{v}] over {unparse(src[1])}')
+                            detail=f'{t}[{v}] over {unparse(src[1])}', positive=True)
 
     from .pattern import body_is, find, find_expr, has, has_expr
 
@@ -405,7 +409,21 @@ def ord_pack(ctx: Ctx, rule: str) -> None:
         if not ss:
             raise AnalysisError(f'{rule}: {f.qualname} no longer assigns {target}')
         ok = b is not None and len(ss) == 1
-        ctx.add(rule, construct, ok, (f.file, ss[0].lineno), f'{target} = [{what} for each name of {names_text}]' if ok else f'{target} = {unparse(ss[0].value)[:120]}', detail='' if ok else unparse(ss[0].value))
+        if ok:
+            ctx.add(rule, construct, True, (f.file, ss[0].lineno), f'{target} = [{what} for each name of {names_text}]')
+            return
+        # the same list with holes: over which sequence it runs, and what stands for one name
+        h = find(f.node, f'{target} = [__ELT for __VAR in __SEQ]') if len(ss) == 1 else None
+        if h is not None:
+            seq_txt = unparse(h['__SEQ'][1])
+            elt = h['__ELT'][1]
+            if seq_txt != names_text and not isinstance(h['__SEQ'][1], ast.Name):
+                ctx.add(rule, construct, False, (f.file, ss[0].lineno), f'{target} is built by going through {seq_txt}; entry k must belong to the k-th name of {names_text} (the order that defines the ids the engine uses)', seq_txt, positive=True)
+                return
+            if isinstance(elt, ast.BoolOp) and isinstance(elt.op, ast.Or):
+                ctx.add(rule, construct, False, (f.file, ss[0].lineno), f'the value of a name is chosen with `{unparse(elt)[:100]}`: a value that is given but falsy (0, 0.0) is replaced by the alternative', unparse(elt), positive=True)
+                return
+        ctx.add(rule, construct, None, (f.file, ss[0].lineno), f'{target} = {unparse(ss[0].value)[:120]} is not in the expected form [{what} for each name of {names_text}]', detail=unparse(ss[0].value))
 
     prep = prog.func('expressions.idmanager', 'IdManager.prepare')
     comp_over(prep, 'self.bounds', 'self.free_betas.names', '(self.free_betas.expressions[_X].lb, self.free_betas.expressions[_X].ub)', '(lb, ub) of that parameter')
@@ -456,7 +474,25 @@ for _I, _N in enumerate(self.id_manager.free_betas.names):
         self.id_manager.free_betas_values[_I] = _V
 """)
     loops = [n for n in walk_no_nested(f.node) if isinstance(n, ast.For) and 'free_betas_values' in unparse(n)]
-    ctx.add(rule, 'BIOGEME.change_init_values', ok, f, 'free_betas_values[i] = betas[name] for (i, name) in enumerate(free_betas.names)' if ok else f'update of free_betas_values: {unparse(loops[0])[:150] if loops else "missing"}', '' if ok else (unparse(loops[0]) if loops else 'missing'))
+    if ok:
+        ctx.add(rule, 'BIOGEME.change_init_values', True, f, 'free_betas_values[i] = betas[name] for (i, name) in enumerate(free_betas.names)')
+    else:
+        # the same update with holes: which sequence numbers the entries, and which values are written
+        h = find(f.node, """
+for _I, _N in enumerate(__SEQ):
+    _V = betas.get(_N)
+    if __TEST:
+        self.id_manager.free_betas_values[_I] = _V
+""")
+        why = None
+        if h is not None:
+            sq, test = unparse(h['__SEQ'][1]), unparse(h['__TEST'][1])
+            if sq != 'self.id_manager.free_betas.names':
+                why = f'entry i of free_betas_values is given the value of the i-th element of {sq}; the vector is indexed by the sorted names self.id_manager.free_betas.names'
+            elif test != f'{h["_V"]} is not None':
+                why = f'a value is written only when `{test}`: the guard for "no value given" is `is not None`, a given value of 0.0 is otherwise skipped'
+        ctx.add(rule, 'BIOGEME.change_init_values', False if why else None, f, why or f'update of free_betas_values is not in the expected form: {unparse(loops[0])[:150] if loops else "missing"}',
+                (unparse(loops[0]) if loops else 'missing'), positive=bool(why))
     f = B.methods['beta_values_dict_to_list']
     ok = has(f.node, """
 _L = []
@@ -519,7 +555,7 @@ for _B in my_betas:
         tbl = unparse(b['__TABLE'][1])
         ok = tbl == 'self.data.betaNames'
         ctx.add(rule, 'bioResults.get_beta_values', ok, f, 'the value of a requested name is betas[betaNames.index(name)]' if ok
-                else f'the position of a requested name is looked up in {tbl}: betas follow betaNames, so the value of another parameter is returned as soon as the request is not the full sorted list', tbl)
+                else f'the position of a requested name is looked up in {tbl}: betas follow betaNames, so the value of another parameter is returned as soon as the request is not the full sorted list', tbl, positive=True)
     f = BR.methods['get_betas_for_sensitivity_analysis']
     def zipped(e):
         return isinstance(e, ast.Call) and isinstance(e.func, ast.Name) and e.func.id == 'dict' and len(e.args) == 1 and isinstance(e.args[0], ast.Call) and unparse(e.args[0].func) == 'zip'
@@ -559,4 +595,4 @@ for _B in my_betas:
             verdict, det = None, 'no definition of the selected columns'
     ctx.add(rule, 'bioResults.get_betas_for_sensitivity_analysis', verdict, f,
             'column betaNames.index(name) of the draws is reported under that name, for the names requested and in their order' if verdict
-            else (det if verdict is False else f'shape not recognised - expected: [{{my_betas[i]: value for i, value in enumerate(row)}} for row in draws[:, [betaNames.index(b) for b in my_betas]]]: {det}'), det)
+            else (det if verdict is False else f'shape not recognised - expected: [{{my_betas[i]: value for i, value in enumerate(row)}} for row in draws[:, [betaNames.index(b) for b in my_betas]]]: {det}'), det, positive=verdict is False)
